@@ -25,7 +25,7 @@ ASSUMPTIONS = ["exception *types* are compared, not messages (they mention <lamb
 EXHAUSTIVE = {"quick": True, "thorough": True}
 FLOOR = {"quick": 3000, "thorough": 20000}
 MONITORS = False
-VARIANTS = ["plain", "annotated", "method", "nested", "deco1", "deco2", "closure-default", "closure-local-default", "class-attr-default"]
+VARIANTS = ["plain", "annotated", "method", "nested", "deco1", "deco2", "closure-default", "closure-local-default", "class-attr-default", "captured-params", "captured-params-class"]
 
 
 def shapes():
@@ -84,6 +84,17 @@ def render(shape, variant):
         # the defaults read a *local* of the defining function that another inner function captures and rebinds
         L += ["def outer():", "    cap = 'c:'", "    def g():", "        nonlocal cap", "        cap = cap + 'x'", "        return cap", "    g()",
               "    def f(%s):" % ", ".join(parts), "        return " + ret, "    g()", "    return f", "f = outer()"]
+    elif variant == "captured-params":
+        # every parameter (also *va / **kw) is read - and the first one rebound - by an inner function
+        first = names[0] if names else None
+        L += ["def f(%s):" % ", ".join(parts), "    def inner():"]
+        if first:
+            L += ["        nonlocal " + first, "        %s = %s" % (first, first)]
+        L += ["        return " + ret, "    return inner()"]
+    elif variant == "captured-params-class":
+        # every parameter is read by a class body and by a method defined inside the function
+        L += ["def f(%s):" % ", ".join(parts), "    class Holder:", "        seen = " + ret, "        def get(self):",
+              "            return " + ret, "    return Holder.seen + Holder().get()"]
     elif variant == "class-attr-default":
         # the defaults read an attribute of the defining class body
         L += ["class K:", "    cap = 'k:'", "    def m(%s):" % ", ".join(["self"] + parts), "        return " + ret,
